@@ -279,6 +279,53 @@ def add_checked_section(rng, sd):
     return cname, hname
 
 
+ATTR_SPELLINGS = [lambda n: "_" + n, lambda n: "_" + n, lambda n: "__" + n, lambda n: "_" + n + "_", lambda n: n + "_",
+                  lambda n: "__" + n + "__", lambda n: n.upper(), lambda n: n.capitalize(), lambda n: "_" + n.capitalize()]
+
+
+def implicit_attribute(c):
+    """the attribute name the schema loader derives for an item that states none (None for '*' / '+' / unnamed items)"""
+    if c.name in (None, "*", "+"):
+        return None
+    return c.name.lower().replace("-", "_")
+
+
+def respell_attributes(rng, sd, p=0.5, pgive=0.2):
+    """rewrites (in place) the attribute names a schema description GIVES: an attribute name is any identifier, not only a
+    lower-case word - it may start or end with underscores ('_at3', '__map0__', 'sec2_'), be written in upper or mixed case
+    ('AT3', '_Sec1'); names derived from key names can never look like that (a key name starts with a letter and is
+    lower-cased), only names given with attribute=... can.  Each given name is respelled with probability p (the rest stay as
+    they are), and a share pgive of the fixed-name keys and sections that give none get one made from the derived name
+    ('max-idle' -> '_max_idle').  A new name is used only if no item of the schema has it (given or derived), so the attributes
+    of every type stay distinct, inherited ones included.  Returns the number of names changed."""
+    items = [c for t in sd.types if not t.abstract for c in t.children] + list(sd.children)
+    used = {c.attr or implicit_attribute(c) for c in items}
+    n = 0
+    for c in items:
+        stem = c.attr
+        if stem is None:
+            stem = implicit_attribute(c)
+            if stem is None or "." in stem or rng.random() >= pgive:
+                continue
+        elif rng.random() >= p:
+            continue
+        new = rng.choice(ATTR_SPELLINGS)(stem)
+        if new in used:
+            continue
+        used.add(new)
+        c.attr = new
+        n += 1
+    return n
+
+
+def given_attributes(elab):
+    """all attribute names of the schema (top level and every concrete type, inherited ones listed where they are inherited)"""
+    out = []
+    for children in [elab[2][4]] + [te[1][4] for _, te in elab[1] if te[0] == "concrete"]:
+        out.extend(info[2] for _, info in children)
+    return out
+
+
 def _pick_default(rng, dt, pbad):
     """schema defaults: never empty or blank (an empty <default/> element has no position in the real loader and
     fails with TypeError when it does not convert - a schema authoring error outside every property's quantifier)"""
